@@ -23,7 +23,7 @@ def jobs(tier, ctx):
             # each and run in C03's quick tier and in this property's thorough tier)
             probes = [('i%s' % str(k).replace('-', 'm'), ['NUMK0=%dLL' % k]) for k in (-1, ln, ln + 1, 4294967296, 4294967296 + ln - 1, -4294967296)]
             for (tag, d) in ([c for c in vm.index_classes(ln, rev) if c[0].startswith('pos')] + probes if tier == 'quick' else vm.index_classes(ln, rev)):
-                j = vm.step_job(ctx, 'step', op, ['NUM', 'ARRM'], oracle=['INDEXREF'], extra_defs=['LENK1=%d' % ln, 'INDEXREF_REVERSE=%d' % rev] + d, tag='typed.len%d.%s' % (ln, tag), typed_arrays=8, mem=(11 if tag in ('below', 'above') else 4))
+                j = vm.step_job(ctx, 'step', op, ['NUM', 'ARRM'], oracle=['INDEXREF'], extra_defs=['LENK1=%d' % ln, 'INDEXREF_REVERSE=%d' % rev] + d, tag='typed.len%d.%s' % (ln, tag), typed_arrays=8, mem=(11 if tag in ('below', 'above') else 4), timeout=(1500 if tag in ('below', 'above') else 300))
                 if j:
                     j['opt_witness'] = j['opt_witness'] + ['index_in_range', 'index_out_of_range']
                     out.append(j)
